@@ -34,6 +34,15 @@ def sname(x):
   return x if isinstance(x, str) else x.name
 
 
+def sref(g, x):
+  """Name of a segment returned by gfapy; marked if it is not the segment
+  object the graph holds under that name (a string, a stale placeholder)."""
+  if isinstance(x, str):
+    return x + " (string, not a segment of the graph)"
+  n = x.name
+  return n if x is g.segment(n) else n + " (not the segment of the graph)"
+
+
 def _try(fn):
   try:
     return fn()
@@ -90,13 +99,13 @@ def compare(lines, g):
     for field, keys in (("neighbours_L", es["dovetails_L"]),
                         ("neighbours_R", es["dovetails_R"]),
                         ("neighbours", dov)):
-      obs = _try(lambda: sorted(sname(x) for x in getattr(s, field)))
+      obs = _try(lambda: sorted(sref(g, x) for x in getattr(s, field)))
       chk("neighbours", name + "." + field, R.other_names(exp_e, name, keys),
           obs)
-    obs = _try(lambda: sorted(sname(x) for x in s.containers))
+    obs = _try(lambda: sorted(sref(g, x) for x in s.containers))
     chk("containers", name + ".containers",
         sorted(exp_e[k]["from"] for k in set(es["edges_to_containers"])), obs)
-    obs = _try(lambda: sorted(sname(x) for x in s.contained))
+    obs = _try(lambda: sorted(sref(g, x) for x in s.contained))
     chk("containers", name + ".contained",
         sorted(exp_e[k]["to"] for k in set(es["edges_to_contained"])), obs)
   # edges
@@ -125,25 +134,25 @@ def compare(lines, g):
          ee["kind"] == "internal"], obs)
     s1, s2 = ee["sides"][0][0], ee["sides"][1][0]
     chk("other", tag + ".other(sid1)", s2,
-        _try(lambda: sname(l.other(g.segment(s1)))))
+        _try(lambda: sref(g, l.other(g.segment(s1)))))
     chk("other", tag + ".other(sid2)", s1,
-        _try(lambda: sname(l.other(g.segment(s2)))))
+        _try(lambda: sref(g, l.other(g.segment(s2)))))
     # the documented alternative form of the argument: a segment name
     chk("other-by-name", tag + ".other(<segment name>)", [s2, s1],
         [_try(lambda: sname(l.other(s1))), _try(lambda: sname(l.other(s2)))])
     if ee["kind"] == "containment":
       chk("ends", tag + ".from_segment", ee["from"],
-          _try(lambda: sname(l.from_segment)))
+          _try(lambda: sref(g, l.from_segment)))
       chk("ends", tag + ".to_segment", ee["to"],
-          _try(lambda: sname(l.to_segment)))
+          _try(lambda: sref(g, l.to_segment)))
     elif ee["kind"] == "dovetail":
       fe, te = ee["from"] + ee["from_end"], ee["to"] + ee["to_end"]
       chk("ends", tag + ".from_end", fe, _try(lambda: str(l.from_end)))
       chk("ends", tag + ".to_end", te, _try(lambda: str(l.to_end)))
       chk("ends", tag + ".from_segment", ee["from"],
-          _try(lambda: sname(l.from_segment)))
+          _try(lambda: sref(g, l.from_segment)))
       chk("ends", tag + ".to_segment", ee["to"],
-          _try(lambda: sname(l.to_segment)))
+          _try(lambda: sref(g, l.to_segment)))
       if fe != te:
         chk("other-end", tag + ".other_end(from_end)", te, _try(
             lambda: str(l.other_end(gfapy.SegmentEnd(
